@@ -242,3 +242,86 @@ fn probe_failsafe_exact_block_boundary() {
         }
     }
 }
+
+/// generic replay probe (C11/C10): the compression reader against an in-memory cursor over the plaintext, for histories of seeks
+/// and reads biased towards the 4 MiB block boundaries (reads that END exactly on a boundary, relative seeks right after them)
+#[test]
+fn probe_compress_cursor_equivalence_histories() {
+    for n in [0usize, 1000, U - 1, U, U + 1000, 2 * U, 2 * U + 1000] {
+        let plain = pdata(n);
+        let s = pcomp(n);
+        let mut x: u64 = 0xD1B5_4A32_D192_ED03 ^ (n as u64);
+        let mut next = move || { x ^= x << 13; x ^= x >> 7; x ^= x << 17; x };
+        // directed histories: a read that ENDS exactly on a block boundary, then a small forward move (relative or absolute), then a read
+        for b in (1..=n / U).map(|i| i * U).filter(|b| *b < n) {
+            for mv in 0..4 {
+                let mut r = preader(&s).unwrap();
+                let mut c = Cursor::new(&plain[..]);
+                r.seek(SeekFrom::Start(b as u64 - 100)).unwrap();
+                c.seek(SeekFrom::Start(b as u64 - 100)).unwrap();
+                let mut a = [0u8; 100];
+                r.read_exact(&mut a).unwrap();
+                c.read_exact(&mut [0u8; 100]).unwrap();
+                let (g, w) = match mv {
+                    0 => (r.seek(SeekFrom::Current(10)), c.seek(SeekFrom::Current(10))),
+                    1 => (r.seek(SeekFrom::Start(b as u64 + 50)), c.seek(SeekFrom::Start(b as u64 + 50))),
+                    2 => (r.seek(SeekFrom::Current(0)), c.seek(SeekFrom::Current(0))),
+                    _ => (r.seek(SeekFrom::End(-((n - b) as i64) + 7)), c.seek(SeekFrom::End(-((n - b) as i64) + 7))),
+                };
+                assert_eq!(g.unwrap(), w.unwrap(), "len {n} boundary {b} move {mv}: position differs");
+                let mut x1 = [0u8; 64];
+                let mut x2 = [0u8; 64];
+                let w2 = c.read(&mut x2).unwrap();
+                let mut g2 = 0;
+                while g2 < w2 {
+                    let m = r.read(&mut x1[g2..w2]).unwrap_or_else(|e| panic!("len {n} boundary {b} move {mv}: read failed: {e}"));
+                    if m == 0 { break; }
+                    g2 += m;
+                }
+                assert_eq!(g2, w2, "len {n} boundary {b} move {mv}: read after the move gave {g2} bytes instead of {w2}");
+                assert!(x1[..g2] == x2[..w2], "len {n} boundary {b} move {mv}: bytes differ after the move");
+            }
+        }
+        for round in 0..4 {
+            let mut r = preader(&s).unwrap();
+            let mut c = Cursor::new(&plain[..]);
+            for step in 0..30 {
+                let op = next() % 6;
+                // targets: random, or a block boundary, or a few bytes around one
+                let mut target = if n == 0 { 0 } else { (next() % (n as u64 + 1)) as i64 };
+                if next() % 2 == 0 && n >= U {
+                    let b = ((next() % ((n / U) as u64 + 1)) as i64) * U as i64;
+                    let d = [0i64, 0, 1, -1, 10, -10, 4096][(next() % 7) as usize];
+                    target = (b + d).clamp(0, n as i64);
+                }
+                let (got, want) = match op {
+                    0 => (r.seek(SeekFrom::Start(target as u64)), c.seek(SeekFrom::Start(target as u64))),
+                    1 | 2 => {
+                        let cur = c.position() as i64;
+                        (r.seek(SeekFrom::Current(target - cur)), c.seek(SeekFrom::Current(target - cur)))
+                    }
+                    3 => (r.seek(SeekFrom::End(target - n as i64)), c.seek(SeekFrom::End(target - n as i64))),
+                    _ => {
+                        // read up to the target when it is ahead (so that reads end exactly on boundaries), else a random amount
+                        let cur = c.position() as i64;
+                        let k = if target > cur { (target - cur) as usize } else { 1 + (next() % 70_000) as usize };
+                        let mut a = vec![0u8; k];
+                        let mut b = vec![0u8; k];
+                        let wn = c.read(&mut b).unwrap();
+                        let mut gn = 0;
+                        while gn < wn {
+                            let m = r.read(&mut a[gn..wn]).unwrap_or_else(|e| panic!("len {n} round {round} step {step}: read failed: {e}"));
+                            if m == 0 { break; }
+                            gn += m;
+                        }
+                        assert_eq!(gn, wn, "len {n} round {round} step {step}: layer gave {gn} bytes, cursor gave {wn} (position now {})", c.position());
+                        assert!(a[..gn] == b[..wn], "len {n} round {round} step {step}: bytes differ");
+                        continue;
+                    }
+                };
+                let got = got.unwrap_or_else(|e| panic!("len {n} round {round} step {step}: seek op {op} to {target} failed: {e}"));
+                assert_eq!(got, want.unwrap(), "len {n} round {round} step {step}: seek op {op} to {target} returned a different position");
+            }
+        }
+    }
+}
